@@ -6,6 +6,7 @@ import (
 	"bytes"
 	"io"
 	"os"
+	"path/filepath"
 
 	"github.com/codenotary/immudb/embedded/appendable"
 	"github.com/codenotary/immudb/embedded/appendable/singleapp"
@@ -61,6 +62,7 @@ type verifHooks struct {
 	names  []string
 	chunks []*verifChunk
 	ext    string
+	dir    string // chunk files exist as (empty) files under dir: os.Remove of a chunk file is observable
 }
 
 func (h *verifHooks) lookup(name string) *verifChunk {
@@ -73,7 +75,8 @@ func (h *verifHooks) lookup(name string) *verifChunk {
 }
 
 func (h *verifHooks) OpenAppendable(options *singleapp.Options, appname string, needsWriteAccess bool) (appendable.Appendable, error) {
-	if c := h.lookup(appname); c != nil {
+	file := filepath.Join(h.dir, appname)
+	if c := h.lookup(appname); c != nil && verifrt.FileExists(file) {
 		// a reopened chunk continues from the bytes it holds
 		c.off = int64(len(c.b))
 		return c, nil
@@ -81,9 +84,11 @@ func (h *verifHooks) OpenAppendable(options *singleapp.Options, appname string, 
 	if !needsWriteAccess {
 		return nil, os.ErrNotExist
 	}
+	// a chunk file that was removed is gone for good: a new empty one takes its name
 	c := &verifChunk{}
-	h.names = append(h.names, appname)
-	h.chunks = append(h.chunks, c)
+	h.names = append([]string{appname}, h.names...)
+	h.chunks = append([]*verifChunk{c}, h.chunks...)
+	verifrt.TouchFile(file)
 	return c, nil
 }
 
@@ -93,7 +98,7 @@ func (h *verifHooks) OpenInitialAppendable(opts *Options, singleAppOpts *singlea
 }
 
 func verifNewMultiApp(fileSize, maxOpen int) (*MultiFileAppendable, *verifHooks) {
-	h := &verifHooks{ext: "x"}
+	h := &verifHooks{ext: "x", dir: verifrt.TempDir()}
 	first, _, _ := h.OpenInitialAppendable(nil, nil)
 	c, err := cache.NewCache(maxOpen)
 	verifrt.Assume(err == nil)
@@ -101,7 +106,7 @@ func verifNewMultiApp(fileSize, maxOpen int) (*MultiFileAppendable, *verifHooks)
 		appendables:       appendableCache{cache: c},
 		currAppID:         0,
 		currApp:           first,
-		path:              "/tmp", // exists, holds no chunk files: Remove/SyncDir are harmless
+		path:              h.dir,
 		fileSize:          fileSize,
 		fileExt:           "x",
 		hooks:             h,
@@ -120,6 +125,7 @@ func VerifH_MultiAppSequence() {
 	mf, _ := verifNewMultiApp(fileSize, maxOpen)
 	var model []byte
 	rewound := false
+	floor := int64(0) // bytes below the highest discard offset are no longer guaranteed readable
 	for _, op := range ops {
 		switch op {
 		case 1:
@@ -132,13 +138,13 @@ func VerifH_MultiAppSequence() {
 			model = append(model, bs...)
 		case 2:
 			o := verifrt.I64("rewind")
-			verifrt.Assume(o >= 0 && o <= int64(len(model)))
+			verifrt.Assume(o >= floor && o <= int64(len(model))) // rewinding into discarded data is outside the claim
 			err := mf.SetOffset(o)
 			verifrt.Assert(err == nil, "set-offset to an earlier offset succeeds")
 			model = model[:o]
 			rewound = true
 		case 3:
-			verifReadBack(mf, model, rewound)
+			verifReadBack(mf, model, rewound, floor)
 		case 4:
 			o := verifrt.I64("discard")
 			verifrt.Assume(o >= 0 && o <= int64(len(model)))
@@ -151,24 +157,27 @@ func VerifH_MultiAppSequence() {
 				verifrt.Assert(err == nil && n == len(buf), "read after discard succeeds")
 				verifrt.Assert(bytes.Equal(buf, model[o:]), "bytes at or after the discard offset unchanged")
 			}
+			if o > floor {
+				floor = o
+			}
 			verifrt.Reach("discarded")
 		}
 		sz, err := mf.Size()
 		verifrt.Assert(err == nil && sz == int64(len(model)), "size is the model size")
 		verifrt.Assert(mf.Offset() == int64(len(model)), "offset is the model size")
 	}
-	verifReadBack(mf, model, rewound)
+	verifReadBack(mf, model, rewound, floor)
 	verifrt.Reach("done")
 }
 
-func verifReadBack(mf *MultiFileAppendable, model []byte, rewound bool) {
-	if len(model) == 0 {
+func verifReadBack(mf *MultiFileAppendable, model []byte, rewound bool, floor int64) {
+	if int64(len(model)) <= floor {
 		return
 	}
 	// a read of symbolic position/length inside the log returns the model bytes
 	o := verifrt.I64("roff")
 	l := verifrt.I64("rlen")
-	verifrt.Assume(o >= 0 && o < int64(len(model)) && l >= 1 && l <= int64(len(model))-o)
+	verifrt.Assume(o >= floor && o < int64(len(model)) && l >= 1 && l <= int64(len(model))-o)
 	buf := make([]byte, l)
 	n, err := mf.ReadAt(buf, o)
 	verifrt.Assert(err == nil && int64(n) == l, "read inside the log succeeds")
